@@ -33,7 +33,7 @@ pub fn url_string(u: &Value) -> String {
     if port != 0 {
         s.push_str(&format!(":{}", port));
     }
-    let path = ga(u, "path");
+    let path = if u.get("pathText").is_some() { ga(u, "pathText") } else { ga(u, "path") };
     if gb(u, "emptypath") {
         // "http://host" with nothing after the authority
     } else {
@@ -45,9 +45,10 @@ pub fn url_string(u: &Value) -> String {
             s.push('/');
         }
     }
-    if gs(u, "q") != "-" {
+    let q = gso(u, "qText").unwrap_or(gs(u, "q"));
+    if q != "-" {
         s.push('?');
-        s.push_str(gs(u, "q"));
+        s.push_str(q);
     }
     if gb(u, "frag") {
         s.push_str("#frag");
@@ -548,7 +549,14 @@ pub fn run(sc: &Value) -> Vec<String> {
     let w = world.lock().unwrap();
     let mut out = Vec::new();
     let secrets: Vec<Vec<u8>> = ga(sc, "secrets").iter().map(|x| x.as_str().unwrap().as_bytes().to_vec()).collect();
-    out.push(json!({"ev":"reset","id":gs(sc,"id"),"req":req,"settings":settings,"nodes":nodes,"bodyLen":expected_body.len(),"connect":connect_policy}).to_string());
+    let mut req_ev = req.clone();
+    if let Some(hs) = req_ev.get_mut("headers").and_then(|x| x.as_array_mut()) {
+        for h in hs.iter_mut() {
+            let n = h[0].as_str().unwrap().to_ascii_lowercase();
+            h[0] = json!(n);
+        }
+    }
+    out.push(json!({"ev":"reset","id":gs(sc,"id"),"req":req_ev,"settings":settings,"nodes":nodes,"bodyLen":expected_body.len(),"connect":connect_policy}).to_string());
     let ph = phases.lock().unwrap();
     for (ci, c) in w.conns.iter().enumerate() {
         if c.dial.is_none() {
@@ -616,13 +624,27 @@ pub fn run(sc: &Value) -> Vec<String> {
                 body_lcp = 0;
             }
         }
+        let auth_ok = match req.get("auth") {
+            None => true,
+            Some(a) => {
+                use base64::Engine;
+                let want = if let Some(b) = a.get("basic") {
+                    let pw = b.get(1).and_then(|x| x.as_str()).unwrap_or("");
+                    format!("Basic {}", base64::engine::general_purpose::STANDARD.encode(format!("{}:{}", b[0].as_str().unwrap(), pw)))
+                } else {
+                    format!("Bearer {}", gs(a, "bearer"))
+                };
+                hv("authorization") == vec![want]
+            }
+        };
         let clv: Vec<i64> = hv("content-length").iter().map(|s| s.parse::<i64>().unwrap_or(-1)).collect();
         out.push(json!({"ev":"hop","i":ci + 1,"dial":{"sch":dial.0,"host":dial.1.to_ascii_lowercase(),"port":dial.2},"connect":connect,
             "req":{"parsed":pr.ok,"method":pr.method,"form": if reqbytes.is_empty() {"none"} else if pr.target.contains("://") {"absolute"} else if pr.target.starts_with('/') {"origin"} else {"other"},
                 "url":turl,"hosts":hv("host"),"conn":hv("connection").iter().map(|s| s.to_ascii_lowercase()).collect::<Vec<_>>(),"clv":clv,
                 "te":hv("transfer-encoding").iter().map(|s| s.to_ascii_lowercase()).collect::<Vec<_>>(),
                 "framing":pr.framing,"bodyLen":body_len,"rawBodyLen":pr.body.len(),"bodyLcp":body_lcp,"midZero":pr.mid_zero,"complete":pr.complete,"trailing":pr.trailing,
-                "kept":kept,"ncaller":callers.len(),"qmatch":qmatch,"qpairs":qpairs.len(),"version":pr.version,
+                "kept":kept,"ncaller":callers.len(),"authOk":auth_ok,
+                "hdrs":pr.headers.iter().map(|h| json!([h.0, String::from_utf8_lossy(&h.1)])).collect::<Vec<_>>(),"qmatch":qmatch,"qpairs":qpairs.len(),"version":pr.version,
                 "auth":hv("authorization"),"proxyAuth":hv("proxy-authorization").len(),"ctype":hv("content-type"),"nchunks":pr.chunks.len(),
                 "leaks":marker_count(reqbytes, &secrets)},
             "written":c.written.len()}).to_string());
@@ -648,5 +670,77 @@ pub fn run(sc: &Value) -> Vec<String> {
         }
     }
     out.push(done.to_string());
+    out
+}
+
+// ------------------------------------------------------------------ C07: randomized single requests
+fn pct_path(seg: &str) -> String {
+    // path percent-encode set of the URL standard: C0 controls, space, " # < > ? ` { } and everything above 0x7E
+    let mut o = String::new();
+    for &b in seg.as_bytes() {
+        if b <= 0x20 || b > 0x7e || matches!(b, b'"' | b'#' | b'<' | b'>' | b'?' | b'`' | b'{' | b'}') {
+            o.push_str(&format!("%{:02X}", b));
+        } else {
+            o.push(b as char);
+        }
+    }
+    o
+}
+
+pub fn generate(seed: u64, tier: &str) -> Vec<Value> {
+    let n = if tier == "thorough" { 20000 } else { 2500 };
+    let mut r = Rng::new(seed ^ 0xC07);
+    let mut out = Vec::new();
+    let methods = ["GET", "POST", "PUT", "DELETE", "PATCH", "OPTIONS", "TRACE", "HEAD", "PROPFIND", "M-SEARCH", "get"];
+    let segs_pool = ["a", "b c", "é", "x%20y", "日本", "~tilde", "semi;colon", "a=b&c", "p+q", "{brace}", "q\"uote", "dots.in.name", "UPPER", "0"];
+    let str_pool = ["v", "", "a b", "&=#+%", "é✓", "1+1=2", "x&y=z", "%41", "?", "/path/", "日本語", " lead", "trail ", "a\tb"];
+    let hnames = ["x-custom", "X-Upper", "accept", "user-agent", "x-a.b_c~d", "if-none-match", "cookie", "x-1", "content-length", "transfer-encoding", "connection", "Content-Length"];
+    let hvals = ["v", "spaces in value", "q=\"quoted\"; p=1", "é-obs", "", "*/*", "a,b,c", "tab\there"];
+    let kinds = ["empty", "text", "bytes", "file", "json", "json_streaming", "form", "multipart", "custom"];
+    for i in 0..n {
+        let nseg = r.range(0, 3);
+        let raw: Vec<&str> = (0..nseg).map(|_| *r.pick(&segs_pool)).collect();
+        let enc: Vec<String> = raw.iter().map(|s| pct_path(s)).collect();
+        // the typed URL string uses the raw segments; the abstract record the encoded ones
+        let mut url = json!({"sch":"http","host":"req.test","labels":["req","test"],"kind":"domain","port":*r.pick(&[0usize, 0, 8080]),
+            "path": if enc.is_empty() { json!([""]) } else { json!(enc) }, "pathText": if raw.is_empty() { json!([""]) } else { json!(raw) }, "q":"-"});
+        let nparams = r.below(4);
+        let params: Vec<Value> = (0..nparams).map(|_| json!([*r.pick(&str_pool), *r.pick(&str_pool)])).collect();
+        if !params.is_empty() {
+            // expected query string: application/x-www-form-urlencoded of the pairs
+            let q = url::form_urlencoded::Serializer::new(String::new())
+                .extend_pairs(params.iter().map(|p| (p[0].as_str().unwrap(), p[1].as_str().unwrap())))
+                .finish();
+            url["q"] = json!(q);
+            url["qText"] = json!("-");
+        }
+        let nh = r.below(4);
+        let mut headers: Vec<Value> = Vec::new();
+        for _ in 0..nh {
+            let hn = *r.pick(&hnames);
+            let hv = match hn.to_ascii_lowercase().as_str() {
+                "content-length" => *r.pick(&["7", "0", "123456"]),
+                "transfer-encoding" => *r.pick(&["chunked", "gzip, chunked", "identity"]),
+                "connection" => *r.pick(&["keep-alive", "upgrade", "close"]),
+                _ => *r.pick(&hvals),
+            };
+            headers.push(json!([hn, hv, r.chance(1, 3)]));
+        }
+        let kind = *r.pick(&kinds);
+        let len = *r.pick(&[0usize, 1, 10, 8191, 8192, 8193, 20000, 70000]);
+        let nw = r.below(5);
+        let writes: Vec<usize> = (0..nw).map(|_| *r.pick(&[0usize, 1, 100, 8192, 9000])).collect();
+        let mut req = json!({"method":*r.pick(&methods),"url":url,"body":{"kind":kind,"len":len,"writes":writes,"chunked":r.chance(1,2),"flush_every":r.below(3)},
+            "headers":headers,"params":params});
+        match r.below(6) {
+            0 => req["auth"] = json!({"basic":[*r.pick(&["user", "us:er", "ü", ""]), *r.pick(&["pass", "p:w", "päss", ""])]}),
+            1 => req["auth"] = json!({"basic":["onlyuser"]}),
+            2 => req["auth"] = json!({"bearer":*r.pick(&["tok", "a.b.c", "t o k"])}),
+            _ => {}
+        }
+        out.push(json!({"id":format!("rq-{}", i),"kind":"loop","seed":r.below(1000),"req":req,
+            "settings":{"follow":false,"maxRedir":0,"proxy":{"disabled":false,"http":{"sch":"-"},"https":{"sch":"-"},"noproxy":[]}},
+            "nodes":[],"connect":{"status":200,"valid":true}}));
+    }
     out
 }
